@@ -948,6 +948,7 @@ func bounds(tier string, cases []*Case) map[string]any {
 var assumptions = []string{
 	"only valid schemas inside gqlgen's documented feature set are generated; colliding field / argument / input-field names inside one scope are outside the statement (gqlgen's documented answer is @goField(name:), covered by the gofieldrename schema) and are not enumerated",
 	"type-checking is `go build ./...` with the pinned Go 1.23.8 toolchain against the runtime packages of the tree under test (replace directive); go vet is not run",
+	"map-backed models: inputs (documented, changesets) with any fields, and objects with nullable scalar / custom-scalar / nested-object fields only, exactly what gqlgen's own test server (maps.graphql) binds; a NON-NULL field on a map-backed OBJECT makes generation fail (field.gotpl: nil pointer evaluating *config.TypeReference.GO) but is outside the documented feature set and therefore not enumerated",
 	"the runtime harness only exercises fields bound to hand-written model methods (Calc) through one fixed request; everything else about execution semantics belongs to C01/C02",
 	"the gendriver (cmd/gendriver) calls api.Generate exactly like `gqlgen generate` plus the stubgen plugin; exit 3 = error, 4 = panic",
 	"federation is not part of this property's configuration space (C20 covers the federation plugin)",
